@@ -18,7 +18,7 @@ esac
 if git -C "$W" diff --quiet HEAD; then echo "NO-CHANGE applied"; exit 2; fi
 for id in "${IDS[@]}"; do
   t0=$(date +%s)
-  out=$(cd /verif && VERIF_REPO="$W" VERIF_BUILD_DIR=/tmp/mut-build ./check "$id" --tier quick --no-evidence "${EXTRA[@]}" 2>&1 | grep -av WARNING)
+  out=$(cd /verif && VERIF_REPO="$W" VERIF_BUILD_DIR=/tmp/mut-build timeout -k 10 1800 ./check "$id" --tier quick --no-evidence "${EXTRA[@]}" 2>&1 | grep -av WARNING)
   rc=$?
   echo "$out" | grep -a "VIOLATION\|HARNESS\|subcheck=\|tier=" | cut -c1-300
   echo "== $id: $(echo "$out" | grep -ac VIOLATION) violation line(s), $(( $(date +%s) - t0 ))s"
